@@ -6,6 +6,12 @@ machinery (get_all_operations, statistic, lookups, state machine, CLI FilterArgu
 clones) is compared with an independent predicate over the raw document (oracles/selection.py).
 E2: the atom alphabet and the document are fixed small grammars.  Traffic items run the real engine in-process for
 small filter sets and map every logged request back to its path template.
+
+Review round 2 (enumerators and the extended reference live in mc/c07_extra.py): one include()/exclude() call carrying
+several conditions (documented as AND), regular-expression shapes and pre-compiled patterns, second values of a slot,
+`exclude(deprecated=True|False, <other conditions>)` in one call, document shapes (`deprecated: false`, `tags: []`, a
+response and a link behind `$ref`), parent/child schemas used in both directions and iterated in lock-step, filters split
+between a pytest fixture's schema and the lazy handle, and GraphQL schemas (filtering by name: states and engine traffic).
 """
 
 from __future__ import annotations
@@ -14,8 +20,9 @@ import copy
 import itertools
 from typing import Any
 
+from mc import c07_extra as extra
+from mc import c07_extra as ref  # oracles/selection.py re-exported unchanged + the review-round-2 atom shapes (see its docstring)
 from mc.runner import Result
-from oracles import selection as ref
 from props import common
 
 ID = "C07"
@@ -27,17 +34,34 @@ RULE = (
     "schema.include()/exclude() clone calls on one 4-path-item / 8-operation / 6-link document; every state up to the "
     "depth bound and every ordering (history) of its atoms is built on a fresh schema; a state is non-trivial when it "
     "excludes at least one operation; traffic item = one real engine run (examples+coverage+fuzzing+stateful) for a filter "
-    "set, every logged request is routed back to its path template"
+    "set, every logged request is routed back to its path template; "
+    "review round 2: +19 atoms outside the lattice (10 calls with 2-3 conditions incl. matcher/expression functions next to "
+    "keywords, 5 regex shapes of which 2 pre-compiled with own flags, 4 second values) explored alone, with 11 context atoms "
+    "of every kind and with each other; 27 exclude(deprecated=True|False, ...) calls x eager/lazy; every state also checks "
+    "child-after-ancestor, lock-step iteration of the clone chain and every split of the history between a filtered fixture "
+    "value and the lazy handle; GraphQL: 2 schemas (Query+Mutation, Query only), 9 name atoms, every set of <=2 atoms in "
+    "every order through get_all_operations / statistic / len / CLI flags / LazySchema / parametrize, engine runs with every "
+    "request attributed to its root field by graphql-core's parser"
 )
 BOUNDS = {
-    "quick": {"atoms": 35, "state_depth": 2, "traffic_depth": 1, "traffic_extra_pairs": 40, "max_examples": 2, "stateful_steps": 4},
-    "thorough": {"atoms": 35, "state_depth": 3, "traffic_depth": 2, "traffic_extra_pairs": 0, "max_examples": 3, "stateful_steps": 5},
+    "quick": {"atoms": 35, "state_depth": 2, "traffic_depth": 1, "traffic_extra_pairs": 40, "max_examples": 2, "stateful_steps": 4,
+              "extra_atoms": 19, "extra_context_atoms": 11, "extra_traffic_sets": 12, "deprecated_calls": 27,
+              "graphql_atoms": 9, "graphql_state_depth": 2, "graphql_traffic_sets": 7},
+    "thorough": {"atoms": 35, "state_depth": 3, "traffic_depth": 2, "traffic_extra_pairs": 0, "max_examples": 3, "stateful_steps": 5,
+                 "extra_atoms": 19, "extra_context_atoms": 35, "extra_traffic_sets": 129, "deprecated_calls": 27,
+                 "graphql_atoms": 9, "graphql_state_depth": 3, "graphql_traffic_sets": 48},
 }
 BUDGET_S = {"quick": 140, "thorough": 3000}
 CHUNK = 1
 ASSUMPTIONS = [
-    "one document (OpenAPI 3.0.2, local references only); other documents, Swagger 2.0 and GraphQL schemas are not enumerated",
-    "filter sets larger than the depth bound are not explored; atoms outside the 35-atom alphabet are not explored",
+    "one OpenAPI document (3.0.2, local references only) and two GraphQL schemas; other documents and Swagger 2.0 are not enumerated",
+    "filter sets larger than the depth bound are not explored; atoms outside the 35-atom alphabet only as listed under review round 2",
+    "GraphQL schemas are filtered by name only (the documentation: 'only supports filtration by the name property'); the order "
+    "in which GraphQL operations are offered is not judged",
+    "exclude(deprecated=True, <conditions>) in one call: 'deprecated AND conditions' and 'deprecated as a filter of its own' are "
+    "both accepted (the text does not choose); deprecated=False must be neutral",
+    "a filtered schema returned by a fixture plus a lazy handle with filters: judged only when all include filters are on one "
+    "side and no filter is both included and excluded (the union then has one reading)",
     "the operation behind an upper-case method key is only checked for agreement between counting and iterating code, never demanded",
     "a `!=` expression is read as true for an operation that does not have the pointed-to member",
     "pytest itself is not run: LazySchema is driven through schemathesis.pytest.lazy.get_schema/get_all_tests with a stub "
@@ -56,8 +80,9 @@ LEVEL_TEXT = (
     "sends is attributed to an operation. Within these bounds the agreement is decided, not sampled."
 )
 LEVEL_NOTE = (
-    "Trusted: oracles/selection.py (own code, no schemathesis import) and the in-process HTTP adapter. Not covered: documents "
-    "other than the one universe, filter sets above the depth bound, multi-worker engine runs, a real pytest session."
+    "Trusted: oracles/selection.py and its extension mc/c07_extra.py (own code, no schemathesis import), graphql-core's query "
+    "parser (request attribution) and the in-process HTTP adapter. Not covered: documents other than the stated universes, "
+    "filter sets above the depth bound, multi-worker engine runs, a real pytest session."
 )
 
 # --------------------------------------------------------------------------------------------------------------------
@@ -86,15 +111,14 @@ DOCUMENT: dict = {
     "paths": {
         # path item shared by two methods
         "/users": {
-            "get": {"operationId": "listUsers", "tags": ["a"], "x-tier": 1, "responses": {"200": _response()}},
+            # `deprecated` written out with its neutral value
+            "get": {"operationId": "listUsers", "tags": ["a"], "x-tier": 1, "deprecated": False, "responses": {"200": _response()}},
             "post": {
                 "operationId": "createUser", "tags": ["a", "b"], "x-tier": 2,
                 "requestBody": _json_body({"type": "object", "properties": {"name": {"type": "string", "maxLength": 5}},
                                            "required": ["name"], "additionalProperties": False}, example={"name": "ex"}),
-                "responses": {"201": _response("Created", links={
-                    "GetUser": {"operationId": "getUser", "parameters": {"id": "$response.body#/id"}},
-                    "DeleteUser": {"operationRef": "#/paths/~1users~1{id}/delete", "parameters": {"id": "$response.body#/id"}},
-                })},
+                # the response (and with it both links) behind a reference
+                "responses": {"201": {"$ref": "#/components/responses/UserCreated"}},
             },
         },
         # path-level parameters; one deprecated operation; one upper-case method key
@@ -110,7 +134,8 @@ DOCUMENT: dict = {
         "/items": {"$ref": "#/x-path-items/Items"},
         # operation-level parameters behind a reference
         "/items/{item_id}": {
-            "get": {"operationId": "getItem", "parameters": [{"$ref": "#/components/parameters/ItemId"}],
+            # an empty list of tags
+            "get": {"operationId": "getItem", "tags": [], "parameters": [{"$ref": "#/components/parameters/ItemId"}],
                     "responses": {"200": _response(links={
                         "Owner": {"operationRef": "#/paths/~1users~1{id}/get", "parameters": {"id": "$response.body#/owner"}},
                     })}},
@@ -123,12 +148,19 @@ DOCUMENT: dict = {
             "get": {"operationId": "listItems", "tags": ["a"], "x-tier": 2, "responses": {"200": _response()}},
             "post": {"tags": ["a", "b"], "x-tier": 1, "requestBody": _json_body({"type": "object", "maxProperties": 1}),
                      "responses": {"201": _response("Created", links={
-                         "GetItem": {"operationId": "getItem", "parameters": {"item_id": "$response.body#/id"}},
+                         "GetItem": {"$ref": "#/components/links/GetItem"},  # one link behind a reference
                          "UpdateItem": {"operationRef": "#/paths/~1items~1{item_id}/put", "parameters": {"item_id": "$response.body#/id"}},
                      })}},
         }
     },
-    "components": {"parameters": {"ItemId": {"name": "item_id", "in": "path", "required": True, "schema": _INT_ID}}},
+    "components": {
+        "parameters": {"ItemId": {"name": "item_id", "in": "path", "required": True, "schema": _INT_ID}},
+        "responses": {"UserCreated": _response("Created", links={
+            "GetUser": {"operationId": "getUser", "parameters": {"id": "$response.body#/id"}},
+            "DeleteUser": {"operationRef": "#/paths/~1users~1{id}/delete", "parameters": {"id": "$response.body#/id"}},
+        })},
+        "links": {"GetItem": {"operationId": "getItem", "parameters": {"item_id": "$response.body#/id"}}},
+    },
 }
 UPPER_LABEL = "PUT /users/{id}"
 USER_ID, ITEM_ID = 4242, 4343
@@ -181,6 +213,10 @@ ATOMS: list[dict] = [
 ]
 ATOM_IDS = [ref.atom_id(a) for a in ATOMS]
 assert len(set(ATOM_IDS)) == len(ATOMS)
+# review round 2: atoms outside the lattice alphabet (one call with several conditions, regex shapes, pre-compiled patterns,
+# second values of a slot); work items index into ALL_ATOMS
+ALL_ATOMS: list[dict] = ATOMS + extra.EXTRA_ATOMS
+assert len({ref.atom_id(a) for a in ALL_ATOMS}) == len(ALL_ATOMS)
 
 
 # real matcher functions handed to schemathesis (the reference has its own predicates of the same names)
@@ -213,9 +249,23 @@ def call_kwargs(atom: dict) -> tuple[tuple, dict]:
     from schemathesis.filters import expression_to_filter_function
 
     kind = atom["kind"]
+    if kind == "all":  # one call carrying all the conditions
+        args: tuple = ()
+        kwargs: dict[str, Any] = {}
+        for part in atom["parts"]:
+            part_args, part_kwargs = call_kwargs({**part, "pol": atom["pol"]})
+            assert not set(part_kwargs) & set(kwargs)
+            args += part_args
+            kwargs.update(part_kwargs)
+        assert len(args) <= 1
+        return args, kwargs
     if kind == "value" or kind == "list":
         return (), {atom["attr"]: copy.deepcopy(atom["value"])}
     if kind == "regex":
+        if atom.get("flags") == "i":  # a pre-compiled pattern with the caller's own flags
+            import re
+
+            return (), {atom["attr"] + "_regex": re.compile(atom["value"], re.IGNORECASE)}
         return (), {atom["attr"] + "_regex": atom["value"]}
     if kind == "func":
         return (MATCHERS[atom["value"]],), {}
@@ -258,13 +308,20 @@ def items(tier: str, seed: int) -> list:
     for pair in _extra_traffic_pairs(b["traffic_extra_pairs"]):
         if pair not in traffic:
             traffic.append(pair)
+    traffic += extra.extra_traffic_sets(len(ATOMS), ATOM_IDS, tier)
     # engine runs are the slow items: hand them out first so that the pool stays busy
     for s in traffic:
         out.append({"kind": "traffic", "atoms": s})
-    states = _sets(b["state_depth"])
+    for universe, s in extra.gql_traffic_sets(tier):
+        out.append({"kind": "graphql_traffic", "universe": universe, "atoms": s})
+    out.append({"kind": "deprecated_calls"})
+    states = _sets(b["state_depth"]) + extra.extra_sets(len(ATOMS), ATOM_IDS, tier)
     group = 12 if tier == "quick" else 48
     for i in range(0, len(states), group):
         out.append({"kind": "states", "sets": states[i:i + group]})
+    gql = [[u, s] for u, s in extra.gql_sets(tier)]
+    for i in range(0, len(gql), group):
+        out.append({"kind": "graphql_states", "sets": gql[i:i + group]})
     return out
 
 
@@ -320,10 +377,15 @@ def observe(schema: Any) -> dict:
 
 def _shape(atoms: list[dict]) -> dict:
     """Coarse facts about a filter set, used in signatures."""
-    return {
+    out: dict[str, Any] = {
         "depth": len(atoms),
         "polarities": "".join(sorted(a["pol"][0].upper() for a in atoms)),
     }
+    if any(a["kind"] == "all" for a in atoms):
+        out["several_conditions_in_one_call"] = True
+    if any("flags" in a for a in atoms):
+        out["compiled_pattern"] = True
+    return out
 
 
 def _direction(observed: set, expected: set) -> str:
@@ -339,11 +401,24 @@ def check_item(item: dict, tier: str) -> Result:
     res = Result()
     if item["kind"] == "traffic":
         common.reset_schemathesis_caches()
-        check_traffic(res, [ATOMS[i] for i in item["atoms"]], tier)
+        check_traffic(res, [ALL_ATOMS[i] for i in item["atoms"]], tier)
+        return res
+    if item["kind"] == "graphql_traffic":
+        common.reset_schemathesis_caches()
+        check_graphql_traffic(res, item["universe"], [extra.GQL_ATOMS[i] for i in item["atoms"]], tier)
+        return res
+    if item["kind"] == "deprecated_calls":
+        common.reset_schemathesis_caches()
+        check_deprecated_calls(res)
+        return res
+    if item["kind"] == "graphql_states":
+        for universe, indices in item["sets"]:
+            common.reset_schemathesis_caches()
+            check_graphql_state(res, universe, [extra.GQL_ATOMS[i] for i in indices])
         return res
     for indices in item["sets"]:
         common.reset_schemathesis_caches()
-        check_state(res, [ATOMS[i] for i in indices])
+        check_state(res, [ALL_ATOMS[i] for i in indices])
     return res
 
 
@@ -362,6 +437,8 @@ def check_state(res: Result, atoms: list[dict]) -> None:
         res.count("states_selecting_nothing")
     for a in atoms:
         res.count("atom_kind_" + a["kind"])
+        if "flags" in a:
+            res.count("atom_compiled_pattern")
 
     # ---- every history (ordering) of this set; canon(state) = the set: all orders must be observably equal
     observations: list[tuple[list[int], dict]] = []
@@ -530,6 +607,30 @@ def check_state(res: Result, atoms: list[dict]) -> None:
         want = ref.reference(DOCUMENT, [atoms[i] for i in order[:depth]]).selected
         if [x for x in after if x != UPPER_LABEL] != want:
             res.count("ancestor_selection_wrong")  # the same deviation is reported in the ancestor's own state
+    # 6b. the other direction: the ancestors (and everything above) were used after the child - the child still offers the same
+    again = labels_of(schema.get_all_operations())
+    res.evaluations += 1
+    if again != obs["labels"]:
+        res.violation({"kind": "child_changed_by_use_of_ancestor", **shape},
+                      {**detail_base, "order": order, "before": obs["labels"], "after": again})
+    # 6c. parent and children iterated in lock-step (one operation from each in turn): each offers what it offers alone
+    if len(chain) > 1:
+        generators = [c.get_all_operations() for c in chain]
+        interleaved: list[list] = [[] for _ in chain]
+        live = list(range(len(chain)))
+        while live:
+            for k in list(live):
+                try:
+                    interleaved[k].append(next(generators[k]))
+                except StopIteration:
+                    live.remove(k)
+        res.evaluations += 1
+        res.count("lock_step_iterations")
+        alone = [*canonical_before, obs["labels"]]
+        for k in range(len(chain)):
+            if labels_of(interleaved[k]) != alone[k]:
+                res.violation({"kind": "selection_differs_when_iterated_in_lock_step", "chain_position": k, **shape},
+                              {**detail_base, "order": order, "alone": alone[k], "in_lock_step": labels_of(interleaved[k])})
     # 7. CLI flags with the same meaning
     check_cli(res, atoms, expected, shape, detail_base)
     # 8. pytest entry points without pytest
@@ -588,6 +689,10 @@ def cli_arguments(atoms: list[dict]) -> dict | None:
     kw["exclude_deprecated"] = False
     for a in atoms:
         pol, kind = a["pol"], a["kind"]
+        if "flags" in a:
+            return None  # a pre-compiled pattern cannot be written as a flag
+        if kind in ("value", "list") and set([a["value"]] if kind == "value" else a["value"]) & set(kw[f"{pol}_{a['attr']}"]):
+            return None  # one value twice under one repeated flag: the flag list cannot say what the two calls say
         if kind == "value":
             kw[f"{pol}_{a['attr']}"].append(a["value"])
         elif kind == "list":
@@ -688,6 +793,40 @@ def check_pytest_paths(res: Result, atoms: list[dict], order: list[int], expecte
                        "direction": _direction(set(labels), set(expected.selected)), **shape},
                       {**detail_base, "observed": labels, "expected": expected.selected})
     res.count("lazy_states_compared")
+
+    # the fixture returns an already filtered schema and the lazy handle adds the rest of the history (or nothing).
+    # Decided only where the union of the two filter sets has one reading: all include filters on one side.
+    for split in range(1, len(history) + 1):
+        on_fixture, on_handle = history[:split], history[split:]
+        if any(_same_filter(a, b) for a in atoms for b in atoms):
+            res.count("lazy_fixture_splits_undecided")  # one filter included and excluded: the text does not say what wins
+            continue
+        if any(a["pol"] == "include" for a in on_fixture) and any(a["pol"] == "include" for a in on_handle):
+            res.count("lazy_fixture_splits_undecided")
+            continue
+        try:
+            fixture_value = build(on_fixture)[-1]
+            handle = LazySchema("api_schema")
+            for atom in on_handle:
+                handle = apply(handle, atom)
+        except Exception as exc:  # noqa: BLE001
+            res.violation({"kind": "lazy_filter_refused", **shape, "error": type(exc).__name__}, {**detail_base, "error": repr(exc)[:200]})
+            continue
+        res.evaluations += 1
+        schema = get_schema(request=_StubRequest(fixture_value), name="api_schema", test_function=test_lazy, filter_set=handle.filter_set)  # type: ignore[arg-type]
+        # (the generation modes do not take part in the selection; all of them are used in the comparison above)
+        tests = list(get_all_tests(schema=schema, test_func=test_lazy, modes=[HypothesisTestMode.FUZZING],
+                                   generation_config=schema.generation_config))
+        labels = [x for x in labels_of(_first(r) for r in tests) if x != UPPER_LABEL]
+        res.count("lazy_fixture_splits_compared")
+        if labels != expected.selected:
+            handle_only = ref.reference(DOCUMENT, on_handle).selected
+            res.violation({"kind": "selection_mismatch", "component": "lazy_schema_filtered_fixture",
+                           "direction": _direction(set(labels), set(expected.selected)),
+                           "equals_handle_filters_only_reading": labels == handle_only},
+                          {**detail_base, "filters_on_fixture_value": [ref.atom_id(a) for a in on_fixture],
+                           "filters_on_lazy_handle": [ref.atom_id(a) for a in on_handle], "observed": labels,
+                           "expected": expected.selected})
 
     # schema.parametrize(): the clone stored for the pytest collector
     def test_param(case: Any) -> None:  # pragma: no cover - never executed
@@ -855,6 +994,263 @@ def check_traffic(res: Result, atoms: list[dict], tier: str) -> None:
 
 
 # --------------------------------------------------------------------------------------------------------------------
+# exclude(deprecated=...) together with other conditions in one call
+
+
+def check_deprecated_calls(res: Result) -> None:
+    from schemathesis.generation.hypothesis.builder import HypothesisTestMode
+    from schemathesis.pytest.lazy import LazySchema, get_all_tests, get_schema
+
+    def test_lazy(case: Any) -> None:  # pragma: no cover - never executed
+        pass
+
+    for prefix in extra.DEPRECATED_PREFIXES:
+        for call in extra.DEPRECATED_CALLS:
+            common.reset_schemathesis_caches()
+            readings = {name: ref.reference(DOCUMENT, atoms) for name, atoms in extra.deprecated_call_readings(prefix, call).items()}
+            plain = {"pol": "exclude", "kind": "all", "parts": call["parts"]}
+            args, kwargs = call_kwargs(plain)
+            facts = {"deprecated_argument": call["deprecated"], "conditions": sorted(p.get("attr", p["kind"]) for p in call["parts"]),
+                     "filters_before": len(prefix)}
+            detail = {"prefix": [ref.atom_id(a) for a in prefix], "call": ref.atom_id(plain), "deprecated": call["deprecated"],
+                      "admissible": {name: r.selected for name, r in readings.items()}}
+            res.states += 1
+            res.count("deprecated_calls_checked")
+            # eager schema
+            res.evaluations += 1
+            schema = build(prefix)[-1].exclude(*args, deprecated=call["deprecated"], **kwargs)
+            obs = observe(schema)
+            strict = [x for x in obs["labels"] if x != UPPER_LABEL]
+            matching = [name for name, r in readings.items() if r.selected == strict]
+            if not matching:
+                res.violation({"kind": "deprecated_call_selection_mismatch", "component": "get_all_operations", **facts},
+                              {**detail, "observed": obs["labels"]})
+            else:
+                res.count("deprecated_call_reading_" + matching[0])
+                res.outcomes.add("deprecated_call_reading_" + matching[0])
+                chosen = readings[matching[0]]
+                if obs["ops"][0] != len(strict) or obs["links"][0] != len(chosen.transitions):
+                    through_ref = ref.pointer_goes_through_reference(DOCUMENT, prefix)
+                    res.violation({"kind": "deprecated_call_statistic_mismatch", **facts, "expression_pointer_through_reference": through_ref},
+                                  {**detail, "observed": obs, "expected_links": chosen.transitions})
+            # lazy handle
+            res.evaluations += 1
+            handle = LazySchema("api_schema")
+            for atom in prefix:
+                handle = apply(handle, atom)
+            handle = handle.exclude(*args, deprecated=call["deprecated"], **kwargs)
+            lazy_schema = get_schema(request=_StubRequest(load()), name="api_schema", test_function=test_lazy, filter_set=handle.filter_set)  # type: ignore[arg-type]
+            tests = list(get_all_tests(schema=lazy_schema, test_func=test_lazy, modes=[HypothesisTestMode.FUZZING],
+                                       generation_config=lazy_schema.generation_config))
+            labels = [x for x in labels_of(_first(r) for r in tests) if x != UPPER_LABEL]
+            if not any(r.selected == labels for r in readings.values()):
+                res.violation({"kind": "deprecated_call_selection_mismatch", "component": "lazy_schema_get_all_tests", **facts},
+                              {**detail, "observed": labels})
+            elif labels != strict:
+                res.violation({"kind": "deprecated_call_read_differently_by_lazy_schema", **facts},
+                              {**detail, "eager": strict, "lazy": labels})
+            res.traces += 2
+            if len(readings) > 1 and readings["and"].selected != readings["separate"].selected:
+                res.nontriv(["deprecated_call", detail["prefix"], detail["call"]])
+
+
+# --------------------------------------------------------------------------------------------------------------------
+# GraphQL schemas (filtering by name)
+
+
+def gql_load(universe: str) -> Any:
+    import schemathesis
+    from mc import httpseam
+
+    return schemathesis.graphql.from_file(extra.gql_sdl(universe)).configure(base_url=httpseam.BASE_URL + "/graphql")
+
+
+def gql_observe(schema: Any) -> dict:
+    st = schema.statistic
+    return {"labels": labels_of(schema.get_all_operations()), "ops": [st.operations.selected, st.operations.total],
+            "links": [st.links.selected, st.links.total], "len": len(schema)}
+
+
+def check_graphql_state(res: Result, universe: str, atoms: list[dict]) -> None:
+    import click
+
+    from schemathesis.cli.commands.run.filters import FilterArguments
+    from schemathesis.generation.hypothesis.builder import HypothesisTestMode
+    from schemathesis.pytest.lazy import LazySchema, get_all_tests, get_schema
+    from schemathesis.pytest.plugin import SchemaHandleMark
+
+    shape = {**_shape(atoms), "schema": "graphql"}
+    detail_base = {"universe": universe, "atoms": [ref.atom_id(a) for a in atoms]}
+    conflict = any(_same_filter(a, b) for a in atoms for b in atoms)
+    expected, total = extra.gql_reference(universe, atoms)
+    res.states += 1
+    res.transitions += len(atoms)
+    res.count("graphql_states")
+
+    def judge(component: str, labels: list[str]) -> None:
+        # the text fixes which operations are offered, not their order: compared as sets (plus "each one once")
+        if sorted(labels) != sorted(expected):
+            res.violation({"kind": "selection_mismatch", "component": component,
+                           "direction": _direction(set(labels), set(expected)), **shape},
+                          {**detail_base, "observed": labels, "expected": expected})
+
+    first = None
+    chain: list = []
+    before: list = []
+    for order in itertools.permutations(range(len(atoms))):
+        history = [atoms[i] for i in order]
+        res.evaluations += 1
+        seen_before: list = []
+        try:
+            built = build(history, root=gql_load(universe), before=seen_before)
+        except Refused as exc:
+            if conflict and exc.message == "Filter already exists":
+                res.count("graphql_histories_refused_as_documented")
+                continue
+            res.violation({"kind": "filter_refused", **shape, "message": exc.message}, {**detail_base, "order": list(order)})
+            continue
+        obs = gql_observe(built[-1])
+        res.traces += 1
+        if first is None:
+            first, chain, before = obs, built, seen_before
+        elif obs != first:
+            res.violation({"kind": "order_dependent_selection", **shape}, {**detail_base, "observed_a": first, "observed_b": obs})
+    if first is None:
+        return
+    judge("get_all_operations", first["labels"])
+    if first["ops"][1] != total or first["len"] != total:
+        res.violation({"kind": "statistic_mismatch", "field": "operations.total", **shape}, {**detail_base, "observed": first, "expected": total})
+    if first["ops"][0] != len(first["labels"]):
+        res.violation({"kind": "statistic_mismatch", "field": "operations.selected", "against": "get_all_operations",
+                       "direction": "over" if first["ops"][0] > len(first["labels"]) else "under", **shape},
+                      {**detail_base, "observed": first})
+    elif first["ops"][0] != len(expected):
+        res.violation({"kind": "statistic_mismatch", "field": "operations.selected", "against": "reference",
+                       "direction": "over" if first["ops"][0] > len(expected) else "under", **shape},
+                      {**detail_base, "observed": first, "expected": expected})
+    if first["links"] != [0, 0]:
+        res.violation({"kind": "statistic_mismatch", "field": "links", **shape}, {**detail_base, "observed": first["links"]})
+    # the chain of clones, both directions
+    for depth, ancestor in enumerate(chain[:-1]):
+        res.evaluations += 1
+        after = labels_of(ancestor.get_all_operations())
+        if after != before[depth]:
+            res.violation({"kind": "ancestor_changed_by_child", "ancestor_depth": depth, **shape},
+                          {**detail_base, "before": before[depth], "after": after})
+    if labels_of(chain[-1].get_all_operations()) != first["labels"]:
+        res.violation({"kind": "child_changed_by_use_of_ancestor", **shape}, {**detail_base})
+    # CLI flags
+    kw = cli_arguments(atoms)
+    filter_set = None
+    if kw is not None:  # (two regular expressions of one polarity have no spelling as flags)
+        cli_conflict = conflict or bool(set(kw["include_name"]) & set(kw["exclude_name"]))
+        res.evaluations += 1
+        try:
+            filter_set = FilterArguments(**kw).into()
+        except click.UsageError as exc:
+            if not cli_conflict:
+                res.violation({"kind": "cli_refused", **shape, "message": str(exc)[:80]}, {**detail_base, "flags": kw})
+    if filter_set is not None:
+        schema = gql_load(universe)
+        schema.filter_set = filter_set
+        labels = labels_of(schema.get_all_operations())
+        res.count("graphql_cli_states_compared")
+        if sorted(labels) != sorted(expected):
+            n_regex = sum(1 for a in atoms if a["pol"] == "include" and a["kind"] == "regex")
+            res.violation({"kind": "selection_mismatch", "component": "cli_filter_arguments_into",
+                           "direction": _direction(set(labels), set(expected)), **shape,
+                           "include_regex_flags": n_regex if n_regex < 2 else "2+"},
+                          {**detail_base, "observed": labels, "expected": expected})
+        elif schema.statistic.operations.selected != len(expected):
+            res.violation({"kind": "statistic_mismatch", "field": "operations.selected", "against": "reference", "component": "cli", **shape},
+                          {**detail_base, "observed": schema.statistic.operations.selected})
+
+    # LazySchema and parametrize()
+    def test_lazy(case: Any) -> None:  # pragma: no cover - never executed
+        pass
+
+    def test_param(case: Any) -> None:  # pragma: no cover - never executed
+        pass
+
+    handle = LazySchema("api_schema")
+    for atom in atoms:
+        handle = apply(handle, atom)
+    res.evaluations += 2
+    lazy_schema = get_schema(request=_StubRequest(gql_load(universe)), name="api_schema", test_function=test_lazy, filter_set=handle.filter_set)  # type: ignore[arg-type]
+    tests = list(get_all_tests(schema=lazy_schema, test_func=test_lazy, modes=list(HypothesisTestMode),
+                               generation_config=lazy_schema.generation_config))
+    judge("lazy_schema_get_all_tests", labels_of(_first(r) for r in tests))
+    chain[-1].parametrize()(test_param)
+    judge("parametrize_clone", labels_of(SchemaHandleMark.get(test_param).get_all_operations()))
+
+    res.outcomes.add("graphql_all" if len(expected) == total else "graphql_none" if not expected else "graphql_some")
+    if len(expected) < total:
+        res.count("graphql_states_excluding_something")
+        res.nontriv(["graphql", universe, *detail_base["atoms"]])
+
+
+def gql_api(exchange: Any) -> tuple:
+    from mc import httpseam
+
+    return httpseam.json_response(200, {"data": {}})
+
+
+def check_graphql_traffic(res: Result, universe: str, atoms: list[dict], tier: str) -> None:
+    from mc import engine
+
+    b = BOUNDS[tier]
+    shape = {**_shape(atoms), "schema": "graphql"}
+    detail_base = {"universe": universe, "atoms": [ref.atom_id(a) for a in atoms]}
+    expected, total = extra.gql_reference(universe, atoms)
+    selected = set(expected)
+    schema = build(atoms, root=gql_load(universe))[-1]
+    scenario_labels: set = set()
+
+    def on_event(event: Any, stream: Any) -> None:
+        if type(event).__name__ == "ScenarioStarted" and event.label is not None:
+            scenario_labels.add(event.label)
+
+    config = engine.make_config(phases=["examples", "coverage", "fuzzing", "stateful"], max_examples=b["max_examples"], seed=1)
+    run = engine.run_engine(schema, config, gql_api, on_event=on_event)
+    res.evaluations += 1
+    res.traces += 1
+    res.count("graphql_engine_runs")
+    fatal = [e for e in run.events if type(e).__name__ in ("FatalError", "Interrupted")]
+    complete = run.error is None and not fatal and any(type(e).__name__ == "EngineFinished" for e in run.events)
+    hit: set = set()
+    for exchange in run.exchanges:
+        fields = extra.gql_root_fields(exchange.body)
+        res.count("graphql_requests")
+        if not fields:
+            res.count("graphql_requests_not_attributable")  # left open
+            continue
+        for label in fields:
+            if label in selected:
+                hit.add(label)
+            else:
+                res.violation({"kind": "request_to_unselected_operation", **shape},
+                              {**detail_base, "request_field": label, "query": (exchange.body or b"")[:200].decode("utf-8", "replace"),
+                               "selected": expected})
+    for label in sorted(scenario_labels):
+        if label not in selected:
+            res.violation({"kind": "scenario_for_unselected_operation", **shape}, {**detail_base, "label": label, "selected": expected})
+    if complete:
+        for label in expected:
+            if label in hit:
+                res.count("graphql_liveness_confirmed")
+            else:
+                res.violation({"kind": "selected_operation_received_no_request", **shape},
+                              {**detail_base, "operation": label, "requested": sorted(hit)})
+    elif selected:
+        res.violation({"kind": "engine_run_did_not_complete", **shape, "error": type(run.error).__name__ if run.error else
+                       (type(fatal[0]).__name__ if fatal else "no EngineFinished")},
+                      {**detail_base, "error": repr(run.error)[:300], "fatal": [repr(getattr(e, "exception", e))[:300] for e in fatal]})
+    res.outcomes.add("graphql_traffic_none" if not run.exchanges else "graphql_traffic_all" if len(selected) == total else "graphql_traffic_subset")
+    if len(selected) < total:
+        res.nontriv(["graphql_traffic", universe, *detail_base["atoms"]])
+
+
+# --------------------------------------------------------------------------------------------------------------------
 
 
 def vacuity(total: Result, tier: str) -> list[str]:
@@ -880,4 +1276,19 @@ def vacuity(total: Result, tier: str) -> list[str]:
         out.append("more than 10% of the requests could not be attributed to a path template")
     if total.exhaustive and c.get("engine_runs", 0) == 0:
         out.append("no engine run")
+    # review round 2
+    if not c.get("atom_kind_all") or not c.get("atom_compiled_pattern"):
+        out.append("calls with several conditions / pre-compiled patterns were not exercised")
+    if not c.get("lock_step_iterations"):
+        out.append("parent and child were never iterated in lock-step")
+    if not c.get("lazy_fixture_splits_compared"):
+        out.append("no filtered fixture value was combined with a lazy handle")
+    if total.exhaustive and (not c.get("deprecated_call_reading_neutral") or c.get("deprecated_calls_checked", 0) < 20):
+        out.append("exclude(deprecated=...) with other conditions was not exercised")
+    if total.exhaustive and (not c.get("graphql_states_excluding_something") or not c.get("graphql_cli_states_compared")):
+        out.append("no GraphQL state excluded an operation / the GraphQL CLI path was not compared")
+    if total.exhaustive and (not c.get("graphql_liveness_confirmed") or not c.get("graphql_histories_refused_as_documented")):
+        out.append("no GraphQL engine run confirmed a request per selected operation / GraphQL conflict atoms not exercised")
+    if c.get("graphql_requests_not_attributable", 0) * 10 > c.get("graphql_requests", 0):
+        out.append("more than 10% of the GraphQL requests could not be attributed to a root field")
     return out
